@@ -248,3 +248,7 @@ impl Future for Receiver {
         }
     }
 }
+
+#[cfg(kani)]
+#[path = "/verif/kani/swimos_runtime/timeout_coord.rs"]
+mod verif_kani;
